@@ -1,4 +1,5 @@
 use crate::*;
+use crate::serialization::utils::check_len;
 
 impl cbor_event::se::Serialize for OperationalCert {
     fn serialize<'se, W: Write>(
@@ -27,6 +28,7 @@ impl Deserialize for OperationalCert {
     fn deserialize<R: BufRead + Seek>(raw: &mut Deserializer<R>) -> Result<Self, DeserializeError> {
         (|| -> Result<_, DeserializeError> {
             let len = raw.array()?;
+            check_len(len, 4, "(hot_vkey, sequence_number, kes_period, sigma)")?;
             let ret = Self::deserialize_as_embedded_group(raw, len);
             match len {
                 cbor_event::Len::Len(_) =>
